@@ -507,8 +507,16 @@ pub fn sibling_version(rng: &mut Rng, of: &VSrc) -> Option<VSrc> {
         VSrc::Tuple { .. } => return None,
     };
     let core = text.split('+').next().unwrap_or(&text).to_string();
-    let out = match rng.below(5) {
+    let out = match rng.below(7) {
         0 => text,
+        5 => flip_case(&text),
+        6 => {
+            // the same version with leading zeros on a component
+            match text.find(|c: char| c.is_ascii_digit()) {
+                Some(i) => format!("{}0{}", &text[..i], &text[i..]),
+                None => text,
+            }
+        }
         1 => core,
         2 => format!("{}+{}", core, rng.pick(&["b", "build.2", "0", "sib-1.x"])),
         3 => format!("{}+{}", core, rng.below(1000)),
@@ -522,6 +530,18 @@ pub fn sibling_version(rng: &mut Rng, of: &VSrc) -> Option<VSrc> {
     } else {
         None
     }
+}
+
+/// Swap the case of every letter except the ones the grammar gives a meaning to (`v`, `x`).
+fn flip_case(t: &str) -> String {
+    t.chars()
+        .map(|c| match c {
+            'v' | 'V' | 'x' | 'X' => c,
+            c if c.is_ascii_lowercase() => c.to_ascii_uppercase(),
+            c if c.is_ascii_uppercase() => c.to_ascii_lowercase(),
+            c => c,
+        })
+        .collect()
 }
 
 pub fn sibling_range(rng: &mut Rng, of: &RSrc) -> Option<RSrc> {
@@ -538,8 +558,10 @@ pub fn sibling_range(rng: &mut Rng, of: &RSrc) -> Option<RSrc> {
             && !last.contains('X')
             && !last.contains('*')
     };
-    Some(RSrc::Text(match rng.below(4) {
+    Some(RSrc::Text(match rng.below(6) {
         0 => text,
+        4 => flip_case(&text),
+        5 => flip_case(&text),
         1 if ends_in_full_version => format!("{}+{}", text.trim_end(), rng.pick(&["b", "build.2", "7"])),
         2 => format!(" {} ", text),
         _ => text.replace("||", " || "),
